@@ -4,6 +4,7 @@ from ..rules import influence as R1
 from ..rules import verdict as R3
 from ..rules import lenguard as R4
 from ..rules import meet as R1M
+from ..rules import everyiter as R1D
 from ..rules import fsbind as RFS
 
 CONFIGS_QUICK = ["default"]
@@ -98,6 +99,8 @@ def run(rep, ctx, tier):
         g = ctx.graph(a)
         rep.count("bodies_in_scope", len(g.scope))
         R3.run(rep, ctx, a, "R3")
+        # a verdict computed per item is accumulated, not overwritten by the last item's
+        R1D.run_last_value(rep, ctx, a, "R1L")
         for name, comp in R1.proof_components(a, ctx.facts):
             ok, detail, where, n = R1.component(ctx, a, comp, cut_sponge=True)
             rep.add("R1", "%s:%s" % (a.key, name), ok, detail, where or a.body.span, nontrivial=n > 0)
